@@ -21,6 +21,10 @@ class BatchAbort(Exception):
     pass
 
 
+class BatchCancel(BaseException):
+    """leaves the block like KeyboardInterrupt / asyncio.CancelledError would: not an Exception subclass"""
+
+
 def V(prop, check, msg, **detail):
     sig = dict(check=check)
     for k in ("field", "prune", "event", "form"):
@@ -86,12 +90,13 @@ def apply_op(t, m, op, form="m"):
 class HexSys:
     def __init__(self, *, universe="H5", values=("S", "L"), prune=False, props=("C01",), batch_len=0,
                  forms=("m",), exits=("commit", "abort"), write_faults=False, batch_universe=None,
-                 nested=False, seed=0, init_all=False, direct=True, extra_batches=(), pairs=False):
+                 nested=False, seed=0, init_all=False, direct=True, extra_batches=(), pairs=False, chain=0):
         self.kw = dict(universe=universe, values=list(values), prune=prune, props=sorted(props), batch_len=batch_len,
                        forms=list(forms), exits=list(exits), write_faults=write_faults,
                        batch_universe=batch_universe, nested=nested, seed=seed, direct=direct,
-                       extra_batches=jsonable(extra_batches), pairs=pairs)
+                       extra_batches=jsonable(extra_batches), pairs=pairs, chain=chain)
         self.pairs = pairs
+        self.chain = chain
         if pairs and (write_faults or "wfail" in exits):
             raise ValueError("write-fault positions are counted from the pre-state; not available for pairs")
         self.labels = alphabet.Labels(seed)
@@ -146,6 +151,9 @@ class HexSys:
         if self.pairs:
             base = self._events(snap, model)
             return [("pair", a, b) for a in base for b in base]
+        if self.chain:
+            base = self._events(snap, model)
+            return [("pair",) + c for c in itertools.product(base, repeat=self.chain)]
         return self._events(snap, model)
 
     def _events(self, snap, model):
@@ -164,6 +172,8 @@ class HexSys:
             if "abort" in self.exits:
                 for j in range(len(seq) + 1):
                     evs.append(("batch", seq, ("abort", j)))
+            if "cancel" in self.exits:
+                evs.append(("batch", seq, ("cancel", len(seq))))
             if "badarg" in self.exits:
                 for j in range(len(seq) + 1):
                     evs.append(("batch", seq, ("badarg", j)))
@@ -210,7 +220,7 @@ class HexSys:
                 if st.snap is None or st.viols:
                     return Step(None, st.model, viols)
                 cur_snap, cur_model = st.snap, st.model
-                if i == 0:
+                if i < len(ev) - 2:
                     viols += self.state_check(cur_snap, cur_model)
                     if viols:
                         return Step(None, cur_model, viols)
@@ -296,7 +306,7 @@ class HexSys:
         try:
             with t.squash_changes() as b:
                 for j, op in enumerate(seq):
-                    if exit_[0] in ("abort", "badarg") and exit_[1] == j:
+                    if exit_[0] in ("abort", "badarg", "cancel") and exit_[1] == j:
                         self._leave(b, exit_, exc_obj)
                     apply_op(b, m, op, "m" if j % 2 == 0 else "i")
                     if "C01" in P:
@@ -306,11 +316,15 @@ class HexSys:
                         if b.root_hash != mpt.root(m):
                             viols.append(V(self._p("C05"), "batch_root_not_canonical", "batch trie root differs from canonical root",
                                            got=b.root_hash, want=mpt.root(m), prune=self.prune))
-                if exit_[0] in ("abort", "badarg") and exit_[1] == len(seq):
+                if exit_[0] in ("abort", "badarg", "cancel") and exit_[1] == len(seq):
                     self._leave(b, exit_, exc_obj)
                 batch_root = b.root_hash
                 if exit_[0] == "wfail":
                     t.db.arm(exit_[1])
+        except BatchCancel:
+            if exit_[0] != "cancel":
+                raise
+            viols += self._abort_restored(t, snap, model, "cancel")
         except BatchAbort as e:
             if exit_[0] != "abort" or e is not exc_obj:
                 viols.append(V("C05", "abort_wrong_exception", "a different exception object left the block"))
@@ -341,6 +355,8 @@ class HexSys:
     def _leave(self, b, exit_, exc_obj):
         if exit_[0] == "abort":
             raise exc_obj
+        if exit_[0] == "cancel":
+            raise BatchCancel()
         # abort by an operation that raises: an ill-typed value, not caught by the caller
         b.set(self.keys[0], "not-bytes")
         raise AssertionError("ill-typed value accepted")
@@ -558,8 +574,8 @@ class HexSys:
         t, m = live
         kind = ev[0]
         if kind == "pair":
-            self.live_apply(live, ev[1])
-            self.live_apply(live, ev[2])
+            for sub in ev[1:]:
+                self.live_apply(live, sub)
             return
         if kind == "op":
             apply_op(t, m, ev[1], ev[2])
@@ -576,10 +592,10 @@ class HexSys:
             try:
                 with t.squash_changes() as b:
                     for j, op in enumerate(seq):
-                        if exit_[0] in ("abort", "badarg") and exit_[1] == j:
+                        if exit_[0] in ("abort", "badarg", "cancel") and exit_[1] == j:
                             raise BatchAbort()
                         apply_op(b, m2, op, "m" if j % 2 == 0 else "i")
-                    if exit_[0] in ("abort", "badarg"):
+                    if exit_[0] in ("abort", "badarg", "cancel"):
                         raise BatchAbort()
                     if exit_[0] == "wfail":
                         t.db.arm(exit_[1])
